@@ -8,11 +8,12 @@ use simcore::Ctx;
 use std::sync::Arc;
 
 pub fn csv_profile(_ctx: &Ctx) -> Profile {
-    let mut p = Profile::flat(&[Leaf::Bool, Leaf::I8, Leaf::I16, Leaf::I32, Leaf::I64, Leaf::U8, Leaf::U16, Leaf::U32, Leaf::U64, Leaf::F32, Leaf::F64, Leaf::Utf8, Leaf::LargeUtf8, Leaf::Date32, Leaf::Utf8View]);
+    let mut p = Profile::flat(&[Leaf::Bool, Leaf::I8, Leaf::I16, Leaf::I32, Leaf::I64, Leaf::U8, Leaf::U16, Leaf::U32, Leaf::U64, Leaf::F32, Leaf::F64, Leaf::Utf8, Leaf::Date32, Leaf::Utf8View]);
     p.str_style = StrStyle::TextNoCtl;
     p.nan = false;
     p.extreme = false;
     p.max_cols = 4;
+    p.all_nullable = true;
     p
 }
 
@@ -51,6 +52,8 @@ pub struct CsvCfg {
 pub struct CsvFmt {
     pub wl: Workload,
     pub cfg: CsvCfg,
+    /// recover the sink with `Writer::into_inner` (otherwise `RecordBatchWriter::close` / drop only)
+    pub into_inner: bool,
 }
 
 impl CsvFmt {
@@ -71,13 +74,17 @@ impl CsvFmt {
 
 impl Fmt for CsvFmt {
     fn name(&self) -> &'static str {
-        "csv"
+        if self.into_inner {
+            "csv.into_inner"
+        } else {
+            "csv"
+        }
     }
     fn trunc(&self) -> Trunc {
         Trunc::NotChecked
     }
     fn write(&self, _ctx: &Ctx, sink: SimSink, post: Post) -> WOut {
-        set_component("csv.writer");
+        set_component(if self.into_inner { "csv.into_inner.writer" } else { "csv.writer" });
         let mut w = self.writer_builder().build(sink);
         let mut out = WOut::ok();
         for b in &self.wl.batches {
@@ -86,16 +93,24 @@ impl Fmt for CsvFmt {
                 break;
             }
         }
-        match post {
-            Post::Drop if !out.api_ok => drop(w),
-            _ => {
-                let _sink = w.into_inner();
+        if self.into_inner {
+            match post {
+                Post::Drop if !out.api_ok => drop(w),
+                _ => {
+                    let _sink = w.into_inner();
+                }
             }
+        } else if out.api_ok {
+            if let Err(e) = arrow_array::RecordBatchWriter::close(w) {
+                out = WOut::fail("close", e);
+            }
+        } else {
+            drop(w);
         }
         out
     }
     fn read(&self, ctx: &Ctx, data: Arc<Vec<u8>>, plan: Plan) -> ROut {
-        set_component("csv.reader");
+        set_component(if self.into_inner { "csv.into_inner.reader" } else { "csv.reader" });
         let (br, st) = bufread(ctx, data, plan);
         let mut out = ROut::new(st);
         match self.reader_builder().build_buffered(br) {
